@@ -380,7 +380,7 @@ class Module:
             for a, b in zip(cs, cs[1:]):
                 self.stats['disjoint_pairs'] += 1
                 if a.k + a.size > b.k:
-                    self.add(['C04', 'C07'], 'G-DISJ', 'CappedRecord%d' % v,
+                    self.add(['C04', 'C07'] + (['C05'] if v > 0 else []), 'G-DISJ', 'CappedRecord%d' % v,
                              'fields `%s` [%d,%d) and `%s` [%d,%d) of variant %d overlap' % (a.name, a.k, a.k + a.size, b.name, b.k, b.k + b.size, v),
                              key='%d.%s.%s' % (v, a.name, b.name))
 
@@ -565,7 +565,12 @@ class Module:
         for okind, st, ret in outs:
             flags = it.finish(okind, st, ret)
             for rule, msg in flags:
-                self.add(FLAG_PROPS.get(rule, ['C07']), rule, b.key, msg, key='%s|%s' % (b.key.replace(self.prefix, ''), re.sub(r'\[.*$', '', msg)[:120]))
+                props = list(FLAG_PROPS.get(rule, ['C07']))
+                if kind == 'conv' and rule in ('G-STORE', 'G-INV', 'G-TYPE', 'G-DOUBLE') and 'C05' not in props:
+                    props.append('C05')      # a conversion that clobbers / mis-owns a field does not keep or add the right values
+                if kind in ('clone', 'clone_from') and 'C16' not in props:
+                    props.append('C16')
+                self.add(props, rule, b.key, msg, key='%s|%s' % (b.key.replace(self.prefix, ''), re.sub(r'\[.*$', '', msg)[:120]))
             res.append((okind, st, ret))
         return it, res
 
